@@ -15,6 +15,33 @@ LEVEL_TEXT = (
 
 # property -> (technique, design_ref, level_note, extra sentence for the level text)
 CHECKS = {
+    "C03": ("brute-force point-location oracle at origin + x_i*u + y_j*v (basis and kernel arguments captured by "
+            "wrapping module attributes of the real map()), cells carry unique tags; schedule exploration of the "
+            "parallel kernel (threads x chunk sizes x threading layers x CPU affinity) against a bounds-checked "
+            "sequential rebuild of the same source; shadow-memory iteration-conflict monitor",
+            "DESIGN.md 3.4, 3.5, 4/C03",
+            "face tolerance 1e-9 of the cell size (face pixels may show any touching cell); finite cell values; "
+            "schedules are sampled, not enumerated"),
+    "C05": ("exact binning model in extended precision on the grid observed at the kernel boundary (edge points "
+            "within 16 ulp not judged), conservation of totals; schedule sweep of the kernel on maximal-sharing "
+            "inputs with integer weights, bounds-checked sequential rebuild, iteration-conflict monitor",
+            "DESIGN.md 3.5, 4/C05",
+            "schedules are sampled (omp and workqueue layers, 1-16 threads, affinity 16/2/1 cores), never enumerated"),
+    "C11": ("point-location oracle applied to every depth sample of every pixel column; numpy's reduction of the "
+            "column (NaN = missing) as value oracle; unit rule for sum/nansum; default depth resolution; schedule "
+            "sweep of the 3-D sampling kernel",
+            "DESIGN.md 3.4, 3.5, 4/C11",
+            "dz >= one pixel; pixels whose column contains a face sample are not judged"),
+    "C16": ("membership model on physical quantities with decisive margin + exact 3-4-5 boundary cases; row tags; "
+            "fingerprints of the input dataset; datasets hand-built and from the real loader",
+            "DESIGN.md 4/C16", "extract_box exercised on 3-D positions"),
+    "C18": ("numeric invariant monitor on the real get_direction(): unit length, perpendicularity, n parallel to the "
+            "request, u x v = n; angular-momentum oracle for 'top'/'side'",
+            "DESIGN.md 4/C18", "tolerance 1e-10 (1e-5 for float32 normals); extreme magnitudes form their own class"),
+    "C19": ("deep fingerprints of all argument objects around every plot call (also raising calls), second "
+            "identical call compared with the first, and an exhaustive precedence lattice (option x "
+            "neither/layer/call/both) observed in Plot.layers / data / Plot.x,y",
+            "DESIGN.md 3.6, 4/C19", "string norms only; figures rendered with Agg and closed"),
     "C01": ("differential oracle against an explicit oct-forest model: synthetic RAMSES outputs with unique, "
             "decodable stored numbers (ghost copies negated) are written, loaded by the real loader and compared "
             "row-multiset-wise and variable by variable, units against an independent table; audit-hook log of "
